@@ -19,6 +19,8 @@ search : (TESTING, labelled so) the real expanders, through the in-process harne
          repeated head identifiers (Box<A>/Box<B>, Vec<..>), for all 50 derives, textually identical at byte offsets that
          straddle 100 / 1000 / 10000 / 100000 inside the item and at offset 200000 after other items, expanded with
          `rustc -Zunpretty=expanded`; comparison of the emitted token strings / error texts.
+tie 2  : T-corr of the model's tables: `from_str_groups` / `try_into_groups` (vm_compute) vs the keys and grouped variants the
+         real FromStr / TryInto expansions emit, and the real arm order vs a fresh alias table holding the model's keys.
 control: the same keys collected into the crate's alias set and into a std RandomState set (harness cmd hash_probe):
          the first must agree everywhere, the second is expected to differ (shows the search can see a violation).
 """
@@ -741,7 +743,9 @@ def run(tier, seed, replay):
     others = [d for d, _ in table]
     r = {}
     if replay:
-        r = json.load(open(replay))["replay"]
+        _rj = json.load(open(replay))
+        r = _rj["replay"]
+        r.setdefault("class", str(_rj.get("class", "replay")).split(":", 1)[-1])
         cases = [(r["derive"], r["item"], 2, "replay")]
     else:
         cases = corpus(rng, "thorough" if widen else tier, others, table)
@@ -1080,6 +1084,111 @@ def run(tier, seed, replay):
             if plan and n_bad > len(plan) // 2:
                 chk.violation("harness-crash", {"stage": "real-rustc", "failed": n_bad, "of": len(plan)},
                               "the real-rustc position stage produced no expansion for most items", no_input=True)
+    # (g) T-corr tie of the MODEL's collection contents with the code: for generated FromStr / TryInto enums the Coq model's
+    #     insertion-ordered table (`from_str_groups`, `try_into_groups`, evaluated by vm_compute) must have the same keys
+    #     and the same grouped variants as the real expansion emits, and the real arm order must be the order in which
+    #     an independent, fresh `utils::HashSet` filled with the model's keys iterates (harness cmd hash_probe)
+    n_tie = 0
+    if not replay:
+        import re as _re
+        from lib.common import coq_str, py_str
+        tie_fs, tie_ti = [], []
+        words = ["low", "medium", "high", "red", "green", "blue", "north", "east", "up", "down", "left", "q", "alpha", "zz"]
+        for k in range(30 if tier == "quick" and not widen else 200):
+            names = []
+            for w in rng.sample(words, rng.randrange(2, 9)):
+                names += case_variants(rng, w, rng.choice([1, 1, 2, 3]))
+            rng.shuffle(names)
+            names = list(dict.fromkeys(names))
+            tie_fs.append(("Tf%d" % k, names))
+            top = rng.sample(["owned", "ref", "ref_mut"], rng.randrange(1, 4))
+            vs = []
+            for j in range(rng.randrange(2, 12)):
+                vs.append(("V%d" % j, [rng.choice(["i32", "u8", "i64", "bool", "char", "f64", "u128"]) for _ in range(rng.choice([0, 1, 1, 2, 3]))]))
+            tie_ti.append(("Tt%d" % k, top, vs))
+        ref_coq = {"owned": "RNo", "ref": "RRef", "ref_mut": "RMut"}
+        ref_order = ["owned", "ref", "ref_mut"]
+
+        def coq_item(name, variants):
+            return ("{| it_name := %s; it_params := []; it_field_types := []; it_variants := [%s]; it_legacy := [] |}" %
+                    (coq_str(name), "; ".join("{| v_name := %s; v_types := [%s]; v_refs := [%s] |}" %
+                                              (coq_str(vn), "; ".join(coq_str(t) for t in tys), "; ".join(refs))
+                                              for vn, tys, refs in variants)))
+        exprs = []
+        for name, names in tie_fs:
+            exprs.append("from_str_groups toy_ext " + coq_item(name, [(vn, [], []) for vn in names]))
+        for name, top, vs in tie_ti:
+            # FullMetaInfo::ref_types() (utils.rs:1240): owned, ref, ref_mut; `owned` is on by default and listing `ref` /
+            # `ref_mut` does not switch it off
+            refs = [ref_coq[x] for x in ref_order if x in top or x == "owned"]
+            exprs.append("try_into_groups " + coq_item(name, [(vn, tys, refs) for vn, tys in vs]))
+        try:
+            terms = common.coq_eval(["Verif.C19.Model"], exprs, tag="c19tie")
+        except common.BuildError as e:
+            terms = None
+            chk.violation("tie-model:eval", {"error": str(e)[-1200:]}, "the model could not be evaluated for the tie", no_input=True)
+        if terms is not None:
+            reqs_t = [{"cmd": "expand", "derive": "FromStr", "item": "enum %s { %s }" % (n_, ", ".join(ns)), "summary": False}
+                      for n_, ns in tie_fs]
+            reqs_t += [{"cmd": "expand", "derive": "TryInto", "summary": False,
+                        "item": "#[try_into(%s)] enum %s { %s }" % (", ".join(top), n_, ", ".join(
+                            vn + ("(%s)" % ", ".join(tys) if tys else "") for vn, tys in vs))} for n_, top, vs in tie_ti]
+            m_keys = []
+            for t in terms[:len(tie_fs)]:
+                m_keys.append([py_str(g[0]) for g in t])
+            reqs_t += [{"cmd": "hash_probe", "keys": ks} for ks in m_keys]
+            real = common.run_jsonl(binary, reqs_t)
+            for i, (name, names) in enumerate(tie_fs):
+                n_tie += 1
+                n_cmp += 1
+                model = [(py_str(g[0]), [py_str(v) for v in g[1]]) for g in terms[i]]
+                rs = real[i]
+                chk.count(("tie", "from_str", name), len(model) >= 2)
+                if "ok" not in rs:
+                    chk.violation("tie-model:from_str", {"item": reqs_t[i]["item"], "real": rs}, "the tie item does not expand")
+                    continue
+                arms = _re.findall(r'"([^"]*)"\s*(?:if\s*\(\s*src\s*==\s*"[^"]*"\s*\)\s*)?=>\s*%s\s*::\s*(\w+)' % name, rs["ok"])
+                real_groups = []
+                for key, var in arms:
+                    if real_groups and real_groups[-1][0] == key:
+                        real_groups[-1][1].append(var)
+                    else:
+                        real_groups.append((key, [var]))
+                if sorted(model) != sorted(real_groups):
+                    chk.violation("tie-model:from_str", {"item": reqs_t[i]["item"], "model_groups": model, "real_groups": real_groups},
+                                  "the model's variants_caseinsensitive table differs from what the expansion emits: %s" % reqs_t[i]["item"][:160])
+                    continue
+                probe = real[len(tie_fs) + len(tie_ti) + i]
+                if [g[0] for g in real_groups] != probe.get("alias"):
+                    chk.violation("tie-order:from_str", {"item": reqs_t[i]["item"], "real_order": [g[0] for g in real_groups],
+                                                         "fresh_alias_set_order": probe.get("alias")},
+                                  "the match-arm order is not the iteration order of a fresh alias table holding the same keys "
+                                  "inserted in the same order: %s" % reqs_t[i]["item"][:160])
+            for i, (name, top, vs) in enumerate(tie_ti):
+                n_tie += 1
+                n_cmp += 1
+                t = terms[len(tie_fs) + i]
+                model = set()
+                for g in t:
+                    key = g[0]
+                    tys = tuple(x for x in py_str(key[1:]).split(chr(0)) if x != "")
+                    model.add((int(key[0]), tys, tuple(py_str(v) for v in g[1])))
+                rs = real[len(tie_fs) + i]
+                chk.count(("tie", "try_into", name), len(model) >= 2)
+                if "ok" not in rs:
+                    chk.violation("tie-model:try_into", {"item": reqs_t[len(tie_fs) + i]["item"], "real": rs}, "the tie item does not expand")
+                    continue
+                real_set = set()
+                for mm in _re.finditer(r"TryFrom\s*<\s*(&\s*'\w+\s*(mut\s*)?)?%s\s*>\s*for\s*\((.*?)\)\s*\{\s*type Error.*?TryIntoError\s*::\s*new\s*\(\s*value\s*,\s*\"([^\"]*)\"" % name,
+                                       rs["ok"], _re.S):
+                    refc = 0 if mm.group(1) is None else (2 if mm.group(2) else 1)
+                    tys = tuple(x for x in (_re.sub(r"&\s*'\w+\s*(mut\s*)?", "", p_).replace(" ", "") for p_ in mm.group(3).split(",")) if x)
+                    real_set.add((refc, tys, tuple(x.strip() for x in mm.group(4).split(","))))
+                if model != real_set:
+                    chk.violation("tie-model:try_into", {"item": reqs_t[len(tie_fs) + i]["item"], "model_groups": sorted(model),
+                                                         "real_groups": sorted(real_set)},
+                                  "the model's variants_per_types table differs from the impls the expansion emits: %s"
+                                  % reqs_t[len(tie_fs) + i]["item"][:160])
     chk.cov["traces_validated_against_impl"] = n_cmp
     for j, (d, it, g, mech) in enumerate(cases):
         if mech != "other" and g >= 4 and kinds.get(j) == "ok":
@@ -1097,7 +1206,7 @@ def run(tier, seed, replay):
     extra = {"search_is_testing": True,
              "aslr_randomize_va_space": aslr,
              "environments": [e["desc"] for e in envs],
-             "orders": list(orders), "size_history_comparisons": n_hist, "name_collision_comparisons": n_coll, "diagnostic_history_items": n_diag, "real_rustc_position_files": pos_files, "real_rustc_copies_compared": n_pos,
+             "orders": list(orders), "size_history_comparisons": n_hist, "name_collision_comparisons": n_coll, "diagnostic_history_items": n_diag, "model_tie_items": n_tie, "real_rustc_position_files": pos_files, "real_rustc_copies_compared": n_pos,
              "histories": sorted(set(h[0].split(": ", 1)[-1] for h in hist_plan)),
              "controls": {"alias_orders_seen": len(alias_orders), "random_state_orders_seen": len(random_orders),
                           "translator_mutations": [{"mutation": n, "facts_ok": v} for n, v in controls]}}
